@@ -49,6 +49,11 @@ def aggregate(prop: str, ev: Evidence, rep: Report, results: List[Tuple[str, Any
                 samples.append(s)
         for w in r.get("inconclusive", []):
             rep.inconc(w)
+        xs = r.get("xsolver") or {}
+        for k, v in xs.items():
+            tot["xsolver_" + k] = tot.get("xsolver_" + k, 0) + v
+        if xs.get("disagree") or xs.get("errors"):
+            rep.inconc(f"cross-solver: {r.get('xsolver_notes')}")
         for v in r.get("violations", []):
             cex += 1
             fid = match_known(prop, v)
@@ -96,6 +101,8 @@ def run_parts(prop: str, level: str, parts: List[Tuple[str, Callable[[Any], Any]
         "queries": {"total": int(alltot.get("queries", 0)), "unsat": int(alltot.get("unsat", 0)), "sat": int(alltot.get("sat", 0)), "unknown": int(alltot.get("unknown", 0))},
         "solver_s": round(alltot.get("solver_s", 0.0), 2),
         "interpreter_validation": {"n": int(alltot.get("witness", 0)), "agree": int(alltot.get("witness_agree", 0))},
+        "cross_solver": {"solver": "cvc5 1.4 (wheel, SMT-LIB parser)", "n": int(alltot.get("xsolver_n", 0)), "agree": int(alltot.get("xsolver_agree", 0)), "cvc5_unknown": int(alltot.get("xsolver_cvc5_unknown", 0)),
+                         "disagree": int(alltot.get("xsolver_disagree", 0)), "errors": int(alltot.get("xsolver_errors", 0))},
     }
     ev.cov.update(meta)
     if "functions_encoded" in meta:
